@@ -94,6 +94,35 @@ def triples(tier, rng):
     return pairs, sum(1 for (s, _) in pairs if carta_carry(s))
 
 
+def near_integer(tier, rng):
+    """(seed, maxv) with s'*maxv = +-r (mod 2^31-1), r = 1..6, for maxv around and above 2^22: the successor s' of
+    the seed makes the exact quotient s'*maxv/(2^31-1) fall just below / just above an integer, where the doubly
+    rounded binary64 quotient of the RFC's expression may land on the next integer (input selection only)"""
+    nmv = 400 if tier == "quick" else 4200
+    inv = pow(MULT, -1, P31)
+    lowest = 4208185                       # below this maxv the double expression cannot leave the exact floor
+    mvs = [12749994, MAXV_TOP, MAXV_TOP - 1, MAXV_TOP - 6, 2 ** 22, 2 ** 22 + 1, 2 ** 23 - 1, 2 ** 23, 2 ** 23 + 1,
+           lowest - 1, lowest, lowest + 1, 2 ** 21, 3000000, 2 ** 22 - 1, 10 ** 7]
+    while len(mvs) < nmv:
+        c = rng.random()
+        if c < 0.08:
+            mvs.append(rng.randrange(2 ** 22, lowest))
+        elif c < 0.11:
+            mvs.append(rng.randrange(2 ** 20, 2 ** 22))
+        elif c < 0.30:
+            mvs.append(rng.randrange(2 ** 23, MAXV_TOP + 1))
+        else:
+            mvs.append(rng.randrange(lowest, MAXV_TOP + 1))
+    out = []
+    for mv in mvs:
+        minv = pow(mv, -1, P31)
+        for r in range(1, 7):
+            for sign in (-1, 1):
+                s1 = (sign * r * minv) % P31          # s1 * mv = sign*r (mod 2^31-1)
+                out.append(((s1 * inv) % P31, mv))    # the state before s1
+    return out
+
+
 def srand_table(rng):
     vs = [0, 1, 2, 3, 16807, 12345, 2 ** 16, 2 ** 30, P31 - 2, P31 - 1, P31, P31 + 1, P31 + 2, 2 ** 32 - 2, 2 ** 32 - 1,
           2 ** 32, 2 ** 32 + 1, 2 ** 32 + 5, 2 ** 32 + P31 - 1, 2 ** 33 + 1, 2 ** 48 + 7, 2 ** 62, 2 ** 63 - 1, 2 ** 63,
@@ -133,12 +162,21 @@ def command_files(tier, rng, bdir):
             lines += ["set %d" % s, "rand %d" % mv]
         if lines:
             put("triples%02d" % i, lines, "triples")
+    near = near_integer(tier, rng)
+    nch = 4 if tier == "quick" else 8
+    per = (len(near) + nch - 1) // nch
+    for i in range(nch):
+        lines = []
+        for (s, mv) in near[i * per:(i + 1) * per]:
+            lines += ["srand %d" % s, "rand %d" % mv]       # seeded through the real of_rfc5170_srand
+        if lines:
+            put("near%02d" % i, lines, "near")
     if tier == "quick":
         put("walk", ["srand 1", "walk %d %d 1000" % (2 ** 28, 4096)], "walk")
     else:
         put("walk", ["srand 1", "walk %d %d 1000" % (P31 - 1, 65536)], "walk")
-    info = {"triples": len(pairs), "carry_branch_states": ncarry, "srand_values": nsr,
-            "distinct_state_maxv_pairs": len(set(pairs))}
+    info = {"triples": len(pairs), "carry_branch_states": ncarry, "srand_values": nsr, "near_integer_triples": len(near),
+            "distinct_state_maxv_pairs": len(set(pairs) | set(near))}
     return files, info
 
 
@@ -256,6 +294,7 @@ def run(pid, tier):
             "records_by_kind": by_kind,
             "triples": info["triples"],
             "triples_on_subtract_branch": info["carry_branch_states"],
+            "near_integer_triples": info["near_integer_triples"],
             "srand_values": info["srand_values"],
             "walk_steps": last["cnt"],
             "walk_window": 4096 if tier == "quick" else 65536,
@@ -270,8 +309,13 @@ def run(pid, tier):
             "cycle walk: states are compared every window (2^16 thorough, 2^12 quick) with 16807^window * s; because each "
             "correct step is a bijection a single wrong transition changes all later checkpoints, two errors cancelling "
             "inside one window would go unseen",
-            "for s'*maxv >= 2^53 the property only demands the range; the check additionally tolerates +-1 around the "
-            "floor there and nothing else",
+            "the RFC's expression (double)s'*(double)maxv/(double)(2^31-1) is modelled in TLA+ (PrngTrace!RefScale over "
+            "Nat64) as IEEE-754 binary64, round to nearest even: A = RN53(s'*maxv), then RN53(A/(2^31-1)) (2^31-1 is exactly "
+            "representable), then truncation; every recorded result must equal it, for all products; assumed of the "
+            "platform: x86-64/SSE2 double arithmetic, i.e. the C expression is exactly these two correctly rounded "
+            "operations (no x87 extended precision, no contraction of mul+div)",
+            "near-integer triples: s'*maxv = +-r mod (2^31-1), r = 1..6, chosen per maxv in [2^20, 255*50000]; the divergence "
+            "between the double expression and the exact floor has density ~5e-11, so random triples alone do not reach it",
             "steps/triples/srand observed on a -DOF_VERIF ASan build, the cycle walk on a plain -O2 build of the same file",
         ])
         return rc
